@@ -324,7 +324,9 @@ func (o *Oracle) Feed(rec *Record) {
 							post = rec.Nodes[i]
 						}
 					}
-					if selfLearner(&pre) && selfLearner(&post) {
+					// a REJECTION is no vote: Step answers a pre-vote of a stale term with reject=true before it looks at the
+					// receiver's role (raft.go Step, m.Term < r.Term), also on a learner; only a grant is a learner voting
+					if selfLearner(&pre) && selfLearner(&post) && !mb.Msg.Reject {
 						o.viol("C01", "learner-vote-response", seq, "node %d is a learner in its own configuration and emitted message type %d (reject=%v) to %d at term %d",
 							ev.N, mb.Msg.Type, mb.Msg.Reject, mb.Msg.To, mb.Msg.Term)
 					}
